@@ -260,14 +260,16 @@ fn server_locations_layer(rep: &mut Report, tier: Tier) {
                 if tier == Tier::Quick && !(ia == 0 || ib == 0 || ia == ib) {
                     continue;
                 }
-                cfgs.push((ia, ib, *pa, *pb, inline));
+                for edited in [false, true] {
+                    cfgs.push((ia, ib, *pa, *pb, inline, edited));
+                }
             }
         }
     }
     let res: Vec<(u64, u64, Vec<Violation>)> = cfgs
         .par_iter()
-        .map(|(ia, ib, pa, pb, inline)| {
-            let root = base.join(format!("w{ia}{ib}{}", *inline as u8));
+        .map(|(ia, ib, pa, pb, inline, edited)| {
+            let root = base.join(format!("w{ia}{ib}{}{}", *inline as u8, *edited as u8));
             let (ta, tb) = loc_files(pa, pb, *inline);
             let _ = std::fs::create_dir_all(root.join("src"));
             let _ = std::fs::write(root.join("gleam.toml"), "name = \"p\"\n");
@@ -275,14 +277,29 @@ fn server_locations_layer(rep: &mut Report, tier: Tier) {
             let _ = std::fs::write(root.join("src/b.gleam"), &tb);
             let ua = format!("file://{}", root.join("src/a.gleam").display());
             let ub = format!("file://{}", root.join("src/b.gleam").display());
-            let docs = [(ua.clone(), RefDoc::new(ta.clone())), (ub.clone(), RefDoc::new(tb.clone()))];
-            let mut srv = InProc::new();
+            // `edited`: both documents then receive ONE notification with two changes, the second
+            // addressed in the document as it is after the first (a line inserted above it)
+            let changes = json!([
+                {"range": {"start": {"line": 0, "character": 0}, "end": {"line": 0, "character": 0}}, "text": "// é\n"},
+                {"range": {"start": {"line": 1, "character": 0}, "end": {"line": 1, "character": 0}}, "text": "/// 😀 €\n"},
+            ]);
+            let client_text = |t: &str| if *edited { format!("// é\n/// 😀 €\n{t}") } else { t.to_string() };
+            let docs = [(ua.clone(), RefDoc::new(client_text(&ta))), (ub.clone(), RefDoc::new(client_text(&tb)))];
             let mut viol: Vec<Violation> = vec![];
             let mut n = 0u64;
             let mut located = 0u64;
-            let _ = srv.open(&ua, &ta);
-            let _ = srv.open(&ub, &tb);
-            let wit = |kind: &str, uri: &str, pos: (u32, u32)| json!({"prefix_a": pa, "prefix_b": pb, "inline": inline, "request": kind, "document": if uri == ua { "a" } else { "b" }, "position": [pos.0, pos.1]});
+            let start = |srv: &mut InProc| {
+                let _ = srv.open(&ua, &ta);
+                let _ = srv.open(&ub, &tb);
+                if *edited {
+                    for u in [&ua, &ub] {
+                        let _ = srv.notify("textDocument/didChange", json!({"textDocument": {"uri": u, "version": 2}, "contentChanges": changes}));
+                    }
+                }
+            };
+            let mut srv = InProc::new();
+            start(&mut srv);
+            let wit = |kind: &str, uri: &str, pos: (u32, u32)| json!({"prefix_a": pa, "prefix_b": pb, "inline": inline, "edited": edited, "request": kind, "document": if uri == ua { "a" } else { "b" }, "position": [pos.0, pos.1]});
             for (uri, doc) in &docs {
                 for (pos, off) in doc.valid_positions() {
                     let names = names_touching(&doc.text, off);
@@ -306,8 +323,7 @@ fn server_locations_layer(rep: &mut Report, tier: Tier) {
                             Err(m) => {
                                 viol.push(Violation { class: "query-panic".into(), key: format!("server-locations|{kind}|{}", panic_class(&m)), witness: wit(kind, uri, pos), detail: format!("{kind} at {pos:?} panicked: {}", panic_class(&m)) });
                                 srv = InProc::new();
-                                let _ = srv.open(&ua, &ta);
-                                let _ = srv.open(&ub, &tb);
+                                start(&mut srv);
                                 continue;
                             }
                             Ok(Err(_)) => continue,
@@ -404,12 +420,19 @@ fn server_locations_layer(rep: &mut Report, tier: Tier) {
         transitions: located,
         executions: n,
         exhaustive: true,
-        bound: format!("two-module package (real directory, real router): {} combinations of 4 leading-comment prefixes per module (different line counts, 2-/3-/4-byte characters) x multi-byte string before the identifiers on their lines or not; references / definition / documentHighlight / prepareRename / rename at every character boundary touching an identifier in both documents; every returned range resolved in the client's copy of the addressed document", cfgs.len()),
+        bound: format!("two-module package (real directory, real router): {} combinations of 4 leading-comment prefixes per module (different line counts, 2-/3-/4-byte characters) x multi-byte string before the identifiers on their lines or not x as opened, or after one didChange with two changes (two lines inserted at the top, the second addressed after the first); references / definition / documentHighlight / prepareRename / rename at every character boundary touching an identifier in both documents; every returned range resolved in the client's copy of the addressed document", cfgs.len()),
         ..Default::default()
     });
 }
 
 pub fn replay_c14(w: &serde_json::Value) -> Vec<String> {
+    if w.get("prefix_a").is_some() {
+        // server-locations layer: re-run it and report what it finds for the same configuration and request
+        let mut rep = Report::new("C14", Tier::Thorough);
+        server_locations_layer(&mut rep, Tier::Thorough);
+        let same = |v: &Violation| ["prefix_a", "prefix_b", "inline", "edited", "request", "document"].iter().all(|k| v.witness[*k] == w[*k]);
+        return rep.violations.iter().filter(|v| same(v)).map(|v| format!("{}: {}", v.class, v.detail)).collect();
+    }
     let text = if let Some(t) = w["text"].as_str() {
         t.to_string()
     } else if let Some(p) = w["pattern"].as_str() {
@@ -736,6 +759,74 @@ fn disk_layer(rep: &mut Report, tier: Tier) {
     });
 }
 
+/// Columns past the end of a line mean the end of that line (LSP 3.17, Position: "if the
+/// character value is greater than the line length it defaults back to the line length").
+/// Every document x every line x columns 1, 2, 7 and u32::MAX past the line's UTF-16 length, as
+/// end of a range (with every valid start before it) and as both ends; replacements <= 1 symbol.
+fn overlong_layer(rep: &mut Report, tier: Tier) {
+    let docs = words_upto(C13_SYMS, tier.pick(3, 4));
+    let reps = words_upto(C13_SYMS, 1);
+    let res: Vec<(u64, Vec<Violation>)> = docs
+        .par_iter()
+        .map(|doc| {
+            let d = RefDoc::new(doc.clone());
+            let lines = d.lines();
+            let valid = d.valid_positions();
+            let mut n = 0u64;
+            let mut viol = vec![];
+            for (li, (ls, le)) in lines.iter().enumerate() {
+                let len16: u32 = doc[*ls..*le].chars().map(|c| c.len_utf16() as u32).sum();
+                for extra in [1u32, 2, 7, u32::MAX] {
+                    let col = if extra == u32::MAX { u32::MAX } else { len16 + extra };
+                    let over = (li as u32, col);
+                    // starts: every valid position at or before the line end, and the over-long position itself
+                    let mut starts: Vec<((u32, u32), usize)> = valid.iter().filter(|(_, o)| *o <= *le).cloned().collect();
+                    starts.push((over, *le));
+                    for (sp, so) in starts {
+                        for r in &reps {
+                            n += 1;
+                            let act = Act::Edit { start: sp, end: over, text: r.clone() };
+                            let mut after = d.clone();
+                            after.replace(so, *le, r);
+                            let want = after.without_cr();
+                            let outcome = real_step(doc, &act);
+                            let bad = match &outcome {
+                                Ok((got, lm_ok)) if *got == want && *lm_ok => None,
+                                Ok((got, true)) => Some(("overlong-column-text-diverged", format!("server has {got:?}, the client (column clamped to the line end) {:?}", after.text))),
+                                Ok((_, false)) => Some(("stale-line-map", "server line map differs from a fresh one".to_string())),
+                                Err(e) => Some(("overlong-column-rejected", format!("server: {e}"))),
+                            };
+                            if let Some((class, what)) = bad {
+                                if viol.len() < 4 {
+                                    let kind = if doc[*ls..*le].is_ascii() { "ASCII line" } else { "line with multi-byte characters" };
+                                    viol.push(Violation { class: class.into(), key: format!("{kind}|{}", if sp == over { "both ends past the line end" } else { "end past the line end" }), witness: json!({"before": doc, "action": act_json(&act), "overlong": true}), detail: format!("client {doc:?} --{act:?}--> {what}") });
+                                }
+                            }
+                        }
+                    }
+                }
+            }
+            (n, viol)
+        })
+        .collect();
+    let mut n = 0;
+    for (k, v) in res {
+        n += k;
+        for x in v {
+            rep.violation(x);
+        }
+    }
+    rep.layer(Layer {
+        name: "columns-past-the-line-end".into(),
+        states: docs.len() as u64,
+        transitions: n,
+        executions: n,
+        exhaustive: true,
+        bound: format!("all documents <= {} symbols over {{a, LF, CRLF, 2/3/4-byte}} x every line x end column 1, 2, 7 code units and u32::MAX past the line's UTF-16 length x every valid start up to the line end (and the same over-long position as start) x replacements <= 1 symbol; reference: the column defaults back to the line length", tier.pick(3, 4)),
+        ..Default::default()
+    });
+}
+
 pub fn run_c13(tier: Tier) -> i32 {
     let mut rep = Report::new("C13", tier);
     let max_syms = tier.pick(4usize, 5usize);
@@ -762,6 +853,7 @@ pub fn run_c13(tier: Tier) -> i32 {
     });
     router_layer(&mut rep, tier);
     disk_layer(&mut rep, tier);
+    overlong_layer(&mut rep, tier);
     rep.distinct_nontrivial = crlf.load(Ordering::Relaxed).min(unique);
     rep.distinct_nontrivial = unique.saturating_sub(pow(1, 1));
     rep.distinct_outcomes = 1 + rep.violations.iter().map(|v| v.class.clone()).collect::<std::collections::BTreeSet<_>>().len() as u64;
@@ -773,6 +865,11 @@ pub fn run_c13(tier: Tier) -> i32 {
 }
 
 pub fn replay_c13(w: &serde_json::Value) -> Vec<String> {
+    if let (Some(b), Some(a), Some(true)) = (w["before"].as_str(), act_from_json(&w["action"]), w["overlong"].as_bool()) {
+        let mut rep = Report::new("C13", Tier::Quick);
+        overlong_layer(&mut rep, Tier::Thorough);
+        return rep.violations.iter().filter(|v| v.witness["before"].as_str() == Some(b) && act_from_json(&v.witness["action"]).map_or(false, |x| x == a)).map(|v| format!("{}: {}", v.class, v.detail)).collect();
+    }
     if let (Some(b), Some(a)) = (w["before"].as_str(), act_from_json(&w["action"])) {
         return c13_check(b, &a).into_iter().map(|(c, d)| format!("{c}: {d}")).collect();
     }
